@@ -154,6 +154,10 @@ type Backend struct {
 	// Set of struct type handles whose global variables use Uniform address space.
 	// Used to apply std140 MatrixStride rules (column stride >= 16 for f32).
 	uniformStructTypes map[ir.TypeHandle]bool
+
+	// SPIR-V version requested by the caller (options.Version may be bumped during a compilation).
+	requestedVersion      Version
+	requestedVersionSaved bool
 }
 
 // wrappedBinaryOp is the dedup key for wrapped binary operation functions.
@@ -301,6 +305,14 @@ func (b *Backend) Compile(module *ir.Module) ([]byte, error) {
 	// Reset all per-compilation state (maps cleared, slices truncated).
 	b.Reset()
 	b.module = module
+
+	// requireSpirvVersion14 bumps options.Version while compiling; a reused Backend must start
+	// every compilation from the version the caller asked for.
+	if !b.requestedVersionSaved {
+		b.requestedVersion = b.options.Version
+		b.requestedVersionSaved = true
+	}
+	b.options.Version = b.requestedVersion
 
 	// Reuse or create the ModuleBuilder.
 	if b.builder != nil {
